@@ -35,6 +35,34 @@ type c17ConnMon struct {
 	cntBefore int // WB: ClientConn's own slot count before this step's event
 	fullBefore bool // WB: the connection had no free slot before this step's event
 	waitBefore int  // WB: requests waiting for a slot / holding a reservation before the event
+
+	// server-not-reading window: blockMax is the largest limit that can be in
+	// force at the client at any time since the server stopped reading (while
+	// its writes block, the client's read loop may be stuck writing an
+	// acknowledgement and then has not processed later SETTINGS; streams
+	// admitted under an earlier, larger limit reach the wire only when the
+	// server reads again). Valid while hasBlockMax, i.e. up to and including
+	// the step in which the server resumes reading.
+	hasBlockMax bool
+	blockMax    int64
+
+	// the monitor's own slot count at the start of the step (black box):
+	existed        bool  // the connection existed when the step began
+	openBefore     int   // streams open on the wire
+	unopenedBefore int   // requests handed to this connection by the pool that have not opened their stream yet
+	allowedBefore  int64 // largest limit that can be in force at the client
+}
+
+// allowed is the largest limit that may be in force at the client during this step.
+func (cm *c17ConnMon) allowed() int64 {
+	a := cm.limit
+	if cm.prevLimit > a {
+		a = cm.prevLimit
+	}
+	if cm.hasBlockMax && cm.blockMax > a {
+		a = cm.blockMax
+	}
+	return a
 }
 
 type c17Mon struct {
@@ -81,7 +109,52 @@ func (m *c17Mon) begin() {
 		cm.cntBefore, pk, ok = c17Count(c)
 		cm.fullBefore = ok && c.usable() && !pk.Closed && !pk.GoAway && cm.cntBefore >= int(pk.MaxConcurrentStreams)
 		cm.waitBefore = pk.PendingRequests + pk.StreamsReserved
+		if !c.notReading {
+			cm.hasBlockMax = false // the step in which the server resumed reading is over
+		}
+		cm.existed = true
+		cm.openBefore = c.openCount()
+		cm.unopenedBefore = len(m.unopened(c))
+		if cm.unopenedBefore > 1 {
+			m.feat["request-queued-behind-stuck-write"] = true
+		}
+		cm.allowedBefore = cm.allowed()
 	}
+}
+
+// unopened lists the requests that the pool handed to connection c (first
+// attempt, observed through httptrace GotConn), that have not been handed to
+// another connection since, whose RoundTrip has not returned, and whose HEADERS
+// have not appeared on c: each of them occupies one of c's slots (it holds a
+// reservation, or it owns a stream whose HEADERS write is stuck behind
+// back-pressure). Retried attempts are not counted: after a failed retry the
+// Transport waits in its back-off without holding a slot, and that state
+// cannot be told apart from outside.
+func (m *c17Mon) unopened(c *c17Conn) []int {
+	as := m.h.assignList()
+	nAssign := map[int]int{}
+	for _, a := range as {
+		nAssign[a.req]++
+	}
+	var out []int
+	for _, a := range as {
+		if a.conn != c.idx || a.attempt != 1 || nAssign[a.req] != 1 {
+			continue
+		}
+		if a.req >= len(m.h.reqs) || m.h.reqs[a.req].finished() {
+			continue
+		}
+		opened := false
+		for _, st := range c.streams {
+			if st.req == a.req {
+				opened = true
+			}
+		}
+		if !opened {
+			out = append(out, a.req)
+		}
+	}
+	return out
 }
 
 // afterRequest: in pooled mode a new request must not be placed on a
@@ -90,6 +163,7 @@ func (m *c17Mon) afterRequest() {
 	if m.strict {
 		return
 	}
+	m.poolDecision()
 	for _, c := range m.h.connList() {
 		cm := m.conn(c)
 		if !cm.fullBefore {
@@ -99,6 +173,55 @@ func (m *c17Mon) afterRequest() {
 		if _, pk, ok := c17Count(c); ok && pk.PendingRequests+pk.StreamsReserved > cm.waitBefore {
 			m.fail("pool/request-placed-on-full-connection", "conn %d had no free slot (in use %d, limit %d) when a new request arrived, and the pool queued the request on it (waiting+reserved %d -> %d); history:%s", c.idx, cm.cntBefore, pk.MaxConcurrentStreams, cm.waitBefore, pk.PendingRequests+pk.StreamsReserved, m.h.history())
 		}
+	}
+}
+
+// poolDecision (pooled mode, after a step whose event was a new request): the
+// pool's choice for the new request, as reported by httptrace GotConn, must not
+// be a connection that was at its limit when the request arrived, where "at its
+// limit" is the monitor's own count: streams open on the wire plus requests
+// already handed to the connection that have not opened their stream yet,
+// against the largest limit that can be in force at the client. A new request
+// frees no slot, and nothing else runs in the step before the pool decides, so
+// the counts at the start of the step are the counts at the decision.
+func (m *c17Mon) poolDecision() {
+	h := m.h
+	idx := len(h.reqs) - 1
+	var first *c17Assign
+	for _, a := range h.assignList() {
+		if a.req == idx && a.attempt == 1 {
+			a := a
+			first = &a
+			break
+		}
+	}
+	if first == nil {
+		if !h.reqs[idx].finished() {
+			m.w.Failf("C17/harness/no-pool-decision-observed", "request %d is pending but httptrace GotConn was never called for it; history:%s", idx, h.history())
+		}
+		return
+	}
+	m.feat["pool-decision"] = true
+	for _, c := range h.connList() {
+		cm := m.conn(c)
+		if !cm.existed || !c.usable() || cm.allowedBefore >= c17NoLimit {
+			continue
+		}
+		used := cm.openBefore + cm.unopenedBefore
+		if int64(used) < cm.allowedBefore {
+			continue
+		}
+		if cm.unopenedBefore > 0 {
+			m.feat["request-while-connection-full-of-unopened-requests"] = true
+		}
+		if first.conn != c.idx {
+			continue
+		}
+		trig := "all-slots-open-on-wire"
+		if cm.unopenedBefore > 0 {
+			trig = "slots-held-by-unopened-requests"
+		}
+		m.fail("pool/connection-at-limit-chosen/"+trig, "the pool handed new request %d to conn %d, which was at its limit: %d stream(s) open on the wire + %d request(s) already handed to it that have not opened their stream yet (server reading: %v) >= limit %d; history:%s", idx, c.idx, cm.openBefore, cm.unopenedBefore, !c.notReading, cm.allowedBefore, h.history())
 	}
 }
 
@@ -117,10 +240,7 @@ func (m *c17Mon) observe(frames map[int][]c15Frame) {
 					m.fail("stream-id/not-increasing", "client opened stream %d after stream %d on conn %d; history:%s", f.Stream, cm.maxID, c.idx, m.h.history())
 				}
 				cm.maxID = f.Stream
-				allowed := cm.limit
-				if cm.prevLimit > allowed {
-					allowed = cm.prevLimit
-				}
+				allowed := cm.allowed()
 				if open := int64(c.openCount()); open >= allowed {
 					m.fail("limit/stream-opened-at-or-above-limit/"+m.mode(), "client opened stream %d on conn %d while %d streams were open and the limit in force was %d; history:%s", f.Stream, c.idx, open, allowed, m.h.history())
 				}
@@ -197,6 +317,11 @@ func c17Exec(t testing.TB, w *vx.W, cs c17Case) {
 			}
 			return conns[i]
 		}
+		if c17SecondWriter(h, conns, ev) {
+			// testing/synctest cannot reach quiescence while a goroutine waits for a sync.Mutex
+			w.Outcome("pruned:second-writer-on-connection-with-stuck-write")
+			return
+		}
 		switch {
 		case ev == "Q":
 			h.request("")
@@ -254,6 +379,23 @@ func c17Exec(t testing.TB, w *vx.W, cs c17Case) {
 			}
 			c.pingAcks()
 			m.feat["ping-ack"] = true
+		case ev[0] == 'B' || ev[0] == 'U':
+			c := connOf(ev[1])
+			if c == nil || !c.usable() || c.notReading != (ev[0] == 'U') {
+				w.Outcome("pruned:no-such-conn")
+				return
+			}
+			cm := m.conn(c)
+			if ev[0] == 'B' {
+				c.stopReading()
+				cm.hasBlockMax, cm.blockMax = true, cm.limit
+				m.feat["server-not-reading"] = true
+			} else {
+				if len(m.unopened(c)) > 0 {
+					m.feat["blocked-requests-released"] = true
+				}
+				c.resumeReading()
+			}
 		default:
 			panic("unknown event " + ev)
 		}
@@ -288,6 +430,65 @@ func c17Exec(t testing.TB, w *vx.W, cs c17Case) {
 		}
 	}
 	w.Outcome(strings.Join(feats, "+"))
+	if m.feat["server-not-reading"] {
+		feats = []string{"server-not-reading"}
+		for _, k := range []string{"request-queued-behind-stuck-write", "blocked-requests-released", "request-while-connection-full-of-unopened-requests"} {
+			if m.feat[k] {
+				feats = append(feats, k)
+			}
+		}
+		w.Outcome(strings.Join(feats, "+"))
+	}
+}
+
+// c17SecondWriter reports whether event ev could make a second client goroutine
+// want the write lock of a connection on which one write is already stuck
+// because the server is not reading. That goroutine would block on a
+// sync.Mutex, which testing/synctest does not treat as durably blocked, so the
+// case could never settle; such cases are outside the explored space.
+// While a write is stuck on connection c the remaining events are: new
+// requests (they queue on the new-request lock, a channel, if the stuck write
+// is a request-header write), PING acknowledgements, resume reading, and
+// everything on other connections.
+func c17SecondWriter(h *c17cli, conns []*c17Conn, ev string) bool {
+	var target *c17Conn
+	if len(ev) >= 2 && ev[0] != 'C' {
+		if i := int(ev[1] - 'a'); i >= 0 && i < len(conns) {
+			target = conns[i]
+		}
+	}
+	for _, c := range conns {
+		stuck, hdr := c.writeStuck()
+		if !stuck {
+			continue
+		}
+		switch ev[0] {
+		case 'Q':
+			if !hdr {
+				return true // the new request could take the new-request lock and then wait for the write lock
+			}
+		case 'F':
+			if !hdr || c == target {
+				return true // the retry is a new request; the reset ends a request, whose clean-up takes the write lock
+			}
+		case 'S', 'E', 'R':
+			if c == target {
+				return true // SETTINGS acknowledgement; clean-up of the finished request
+			}
+		case 'C':
+			i, _ := strconv.Atoi(ev[1:])
+			last := -1
+			for _, a := range h.assignList() {
+				if a.req == i-1 {
+					last = a.conn
+				}
+			}
+			if last == c.idx && i >= 1 && i <= len(h.reqs) && !h.reqs[i-1].finished() {
+				return true // clean-up of the cancelled request takes the write lock
+			}
+		}
+	}
+	return false
 }
 
 func c17RunCase(c *vx.Ctx, w *vx.W, cs c17Case) {
@@ -307,6 +508,8 @@ type c17GenState struct {
 	nQ        int
 	cancelled [8]bool
 	nS        [2]int
+	nB        [2]int
+	blocked   [2]bool
 	used      map[string]bool
 	retries   int
 }
@@ -326,6 +529,7 @@ type c17GenOpts struct {
 	limits  string // characters among "012n"
 	maxS    int    // SETTINGS events per connection
 	refused bool
+	maxB    int // "server stops reading" events per connection (each may be followed by "resumes reading")
 }
 
 func c17GenNext(st *c17GenState, o c17GenOpts, emit func(ev string, apply func(*c17GenState))) {
@@ -348,6 +552,11 @@ func c17GenNext(st *c17GenState, o c17GenOpts, emit func(ev string, apply func(*
 			for _, k := range o.limits {
 				emit("S"+cn+string(k), func(s *c17GenState) { s.nS[ci]++ })
 			}
+		}
+		if st.blocked[ci] {
+			emit("U"+cn, func(s *c17GenState) { s.blocked[ci] = false })
+		} else if st.nB[ci] < o.maxB {
+			emit("B"+cn, func(s *c17GenState) { s.blocked[ci] = true; s.nB[ci]++ })
 		}
 		if st.nS[ci] == 0 {
 			continue // nothing but SETTINGS may be sent first
@@ -413,8 +622,8 @@ func TestVerif_C17(t *testing.T) {
 		c.Rule(fmt.Sprintf("every statically legal sequence of 1..%d events (shortest first) over {Q new request (<=%d), C_i cancel request i, S<conn><k> server SETTINGS with MAX_CONCURRENT_STREAMS k in {0,1,2} or without the field (<=2 per connection), E<conn><j> response with END_STREAM on the j-th stream of the connection, R<conn><j> RST_STREAM(CANCEL), F<conn><j> RST_STREAM(REFUSED_STREAM) (thorough), P<conn> acknowledge the client's PINGs}, in mode strict (Transport.StrictMaxConcurrentStreams, one connection) and mode pool (default Transport, two connections addressable), plus seeded prefixes; each case runs a fresh real Transport in its own synctest bubble whose dialled connections end in the harness; at the end of every case 120 s of fake time pass (every retry back-off of the Transport expires) and the clauses are evaluated again; a case is non-trivial when all its events were applicable at run time", depth, vx.Pick(c, 3, 4)))
 		c.Assume("limit in force for a new stream = the larger of the MAX_CONCURRENT_STREAMS values delivered before and during the step in which its HEADERS is observed (no limit before the first SETTINGS); a stream is open on the wire from its HEADERS until END_STREAM both ways or RST_STREAM either way")
 		c.Assume("a pending request that is not woken when the server RAISES the limit by SETTINGS (ClientConn.processSettings does not broadcast) is not reported: the property only states that excess requests wait; the waiter clause fires only when the step itself released a slot (stream closed, request cancelled, PING acknowledged)")
-		strictO := c17GenOpts{maxQ: vx.Pick(c, 3, 4), conns: 1, limits: "012n", maxS: 2, refused: !c.Quick()}
-		poolO := c17GenOpts{maxQ: vx.Pick(c, 3, 4), conns: 2, limits: "012", maxS: vx.Pick(c, 1, 2), refused: false}
+		strictO := c17GenOpts{maxQ: vx.Pick(c, 3, 4), conns: 1, limits: "012n", maxS: 2, refused: !c.Quick(), maxB: 1}
+		poolO := c17GenOpts{maxQ: vx.Pick(c, 3, 4), conns: 2, limits: "012", maxS: vx.Pick(c, 1, 2), refused: false, maxB: 1}
 		run := func(part, mode string, d int, o c17GenOpts, prefix []string) {
 			vx.Enumerate(c, part, vx.Opts{Serial: true, Crumb: true}, func(yield0 func(c17Case) bool) {
 				yield := c15Yield(c, yield0)
@@ -434,5 +643,11 @@ func TestVerif_C17(t *testing.T) {
 		seedP := c17GenOpts{maxQ: 4, conns: 2, limits: "012", maxS: 2, refused: true}
 		run("seed-pool-limit1-second-conn", "pool", sd, seedP, []string{"Q", "Sa1", "Q"})
 		run("seed-pool-limit2-full", "pool", sd, seedP, []string{"Q", "Sa2", "Q", "Q"})
+		// the server stops reading: request-header writes block, requests queue up behind them
+		seedPB := c17GenOpts{maxQ: 5, conns: 2, limits: "012", maxS: 2, refused: true, maxB: 1}
+		run("seed-pool-limit2-idle-not-reading", "pool", sd, seedPB, []string{"Q", "Sa2", "Ea1", "Ba"})
+		run("seed-pool-limit2-write-stuck-one-queued", "pool", sd, seedPB, []string{"Q", "Sa2", "Ea1", "Ba", "Q", "Q"})
+		seedSB := c17GenOpts{maxQ: 4, conns: 1, limits: "012n", maxS: 3, refused: true, maxB: 1}
+		run("seed-strict-limit1-waiting-not-reading", "strict", sd, seedSB, []string{"Q", "Sa1", "Ba", "Q"})
 	})
 }
